@@ -29,6 +29,15 @@ CVRP_UPDATE_STALE = '''        td.set("action_mask", self.get_action_mask(td))
 
 CORPUS = [
     # ---------------------------------------------------------------- C01
+    V("C01", "cvrptw-service-inside-max", "rl4co/envs/routing/cvrptw/env.py", 'torch.max(td["current_time"] + distance, start_times) + duration', 'torch.max(td["current_time"] + distance + duration, start_times)', 'C01.t'),
+    V("C01", "cvrptw-service-dropped", "rl4co/envs/routing/cvrptw/env.py", 'torch.max(td["current_time"] + distance, start_times) + duration', 'torch.max(td["current_time"] + distance, start_times)', 'C01.t'),
+    V("C01", "mtvrp-service-inside-max", "rl4co/envs/routing/mtvrp/env.py", '            torch.max(td["current_time"] + distance / td["speed"], start_times)\n            + service_time', '            torch.max(td["current_time"] + distance / td["speed"] + service_time, start_times)', 'C01.t'),
+    V("C01", "eq-cvrptw-clock-commuted", "rl4co/envs/routing/cvrptw/env.py", 'torch.max(td["current_time"] + distance, start_times) + duration', 'duration + torch.maximum(start_times, distance + td["current_time"])', None),
+    V("C01", "mtvrp-out-leg-gated-by-open-route", "rl4co/envs/routing/mtvrp/env.py", 'td["current_route_length"] + d_ij + (d_j0 * ~td["open_route"])', 'td["current_route_length"] + (d_ij + d_j0) * ~td["open_route"]', 'C01.v'),
+    V("C01", "mtvrp-return-leg-gated-by-open", "rl4co/envs/routing/mtvrp/env.py", 'td["current_route_length"] + d_ij + (d_j0 * ~td["open_route"])', 'td["current_route_length"] + d_ij + (d_j0 * td["open_route"])', 'C01'),
+    V("C01", "eq-mtvrp-limit-reassociated", "rl4co/envs/routing/mtvrp/env.py", 'td["current_route_length"] + d_ij + (d_j0 * ~td["open_route"])', '(~td["open_route"] * d_j0) + d_ij + td["current_route_length"]', None),
+    V("C01", "pctsp-prize-required-literal", "rl4co/envs/routing/pctsp/env.py", '        prize_required = torch.full(\n            (*batch_size,), self.generator.prize_required, device=device\n        )', '        prize_required = torch.ones((*batch_size,), device=device)', 'C01.w'),
+    V("C01", "eq-pctsp-prize-required-ones-times", "rl4co/envs/routing/pctsp/env.py", '        prize_required = torch.full(\n            (*batch_size,), self.generator.prize_required, device=device\n        )', '        prize_required = torch.ones((*batch_size,), device=device) * self.generator.prize_required', None),
     V("C01", "mdcpdp-capacity-single-column", "rl4co/envs/routing/mdcpdp/generator.py", 'size=(*batch_size, self.num_depot),\n        )\n\n        # Sample lateness', 'size=(*batch_size, 1),\n        )\n\n        # Sample lateness', 'C01.n'),
     V("C01", "mdcpdp-current-depot-frozen", "rl4co/envs/routing/mdcpdp/env.py", 'current_depot = torch.where(current_node < num_depot, current_node, current_depot)', 'current_depot = torch.where(back_flag, current_node, current_depot)', 'C01.n'),
     V("C01", "eq-mdcpdp-current-depot-negated", "rl4co/envs/routing/mdcpdp/env.py", 'current_depot = torch.where(current_node < num_depot, current_node, current_depot)', 'current_depot = torch.where(current_node >= num_depot, current_depot, current_node)', None),
@@ -617,6 +626,10 @@ CORPUS += [
 
 CORPUS += [
     # ---------------------------------------------------------------- C18
+    V("C18", "mtvrp-preset-keys-reordered", "rl4co/envs/routing/mtvrp/generator.py", '"ovrpbtw": {"O": 1.0, "TW": 1.0, "L": 0.0, "B": 1.0},', '"ovrpbtw": {"O": 1.0, "B": 1.0, "TW": 1.0, "L": 0.0},', 'C18.m'),
+    V("C18", "mtvrp-prob-args-reordered", "rl4co/envs/routing/mtvrp/generator.py", '                "O": prob_open,\n                "TW": prob_time_window,\n                "L": prob_limit,\n                "B": prob_backhaul,', '                "O": prob_open,\n                "TW": prob_time_window,\n                "B": prob_backhaul,\n                "L": prob_limit,', 'C18.m'),
+    V("C18", "cluster-clamp-result-discarded", "rl4co/envs/common/distribution_utils.py", '        coords.clamp_(0, 1)\n\n        return coords\n\n\nclass Mixed', '        coords.clamp(0, 1)\n\n        return coords\n\n\nclass Mixed', 'C18.m'),
+    V("C18", "eq-cluster-clamp-assigned", "rl4co/envs/common/distribution_utils.py", '        coords.clamp_(0, 1)\n\n        return coords\n\n\nclass Mixed', '        coords = coords.clamp(0, 1)\n\n        return coords\n\n\nclass Mixed', None),
     V("C18", "mtvrp-capacity-original-aliased", "rl4co/envs/routing/mtvrp/generator.py", 'capacity_original = vehicle_capacity.clone()', 'capacity_original = vehicle_capacity', 'C18.k'),
     V("C18", "mtvrp-both-classes-same-mask", "rl4co/envs/routing/mtvrp/generator.py", 'backhaul_demand * ~is_linehaul', 'backhaul_demand * is_linehaul', 'C18.k'),
     V("C18", "mtvrp-classes-independent-draws", "rl4co/envs/routing/mtvrp/generator.py", 'linehaul_demand * is_linehaul', 'linehaul_demand * (torch.rand(*batch_size, num_loc) > self.backhaul_ratio)', 'C18.k'),
